@@ -201,6 +201,8 @@ class CallMixin:
         if env is None:
             return [self.raise_(p, 'TypeError', 'bad arguments: ' + self.src(node))]
         if contract is not None and not (self.unit_target == qname and self.depth == 0 and False):
+            for n_, v_ in env.items():
+                self.policy_escape(p, v_, 'passed to ' + qname.split('.')[-1])
             return self.apply_contract(contract, env, p, fc, node, fv)
         return self.inline(fv, env, p, fc, node)
 
